@@ -31,7 +31,7 @@ RULE = ("part A: every valid sparse output of the bound x 5 index types x 2 colu
         "labels are not all zero and the inverse has something to find); distinct = (class/detector, n, events, index, columns)")
 
 INDEX_KINDS = ("range0", "range5", "range-step2", "datetime", "period", "int-ties", "datetime-ties")      # the last two: sorted, with repeated values
-COLUMN_KINDS = ("default", "strings")
+COLUMN_KINDS = ("default", "strings", "duplicates")      # duplicates: labels that repeat / format to the same string (x, 1, "1", x)
 
 
 # ----------------------------------------------------------------------------------------------- inputs
@@ -59,6 +59,8 @@ def make_columns(kind, p):
     import pandas as pd
     if kind == "default":
         return pd.RangeIndex(p)
+    if kind == "duplicates":        # e.g. two sensor blocks concatenated: per-column labelling is positional, not per label
+        return pd.Index((["x", 1, "1", "x"] * p)[:p], dtype=object)
     return pd.Index(["abc"[j] for j in range(p)])
 
 
